@@ -147,15 +147,15 @@ def handle (st : St) : Toks → IO St
   | "comp" :: ts => answer st ts do
       let d ← pF; let w ← pF; let wts ← pFloats; let k ← pN; let ms ← pRep k pAtoms
       match compositeSld st.tbl ms w wts d with
-      | none => pure "raises"
-      | some .zeros => pure "zeros"
-      | some (.ok a b c) => pure s!"ok {showF a} {showF b} {showF c}"
+      | .missing => pure "missing"
+      | .zeros => pure "zeros"
+      | .ok a b c => pure s!"ok {showF a} {showF b} {showF c}"
   | "compv" :: ts => answer st ts do
       let d ← pF; let ws ← pFloats; let wts ← pFloats; let k ← pN; let ms ← pRep k pAtoms
       match compositeSldV st.tbl ms ws wts d with
-      | none => pure "raises"
-      | some .zeros => pure "zeros"
-      | some (.ok l) =>
+      | .missing => pure "missing"
+      | .zeros => pure "zeros"
+      | .ok l =>
         pure (s!"okv {l.length} " ++ " ".intercalate (l.map fun (a, b, c) => s!"{showF a} {showF b} {showF c}"))
   | "replace" :: ts => answer st ts do
       let s ← pAtom; let t ← pAtom; let p ← pF; let c ← pCompound
